@@ -152,7 +152,8 @@ Lemma check_stmt_ok S cfg file globals : scope_ok S file -> scope_ok S globals -
 Proof.
   intros Hf Hg. induction s as [r|r|r|x b IH] using stmt_ind2; intros locals a a' Hl Ha Hc.
   - cbn [check_stmt] in Hc. exact (check_ref_ok S locals file globals r a a' Hl Hf Hg Ha Hc).
-  - cbn [check_stmt] in Hc. destruct (c_allow_go cfg); [|discriminate]. exact (check_ref_ok S locals file globals r a a' Hl Hf Hg Ha Hc).
+  - cbn [check_stmt] in Hc. destruct (check_ref locals file globals r a) as [a1|] eqn:E; [|discriminate].
+    destruct (c_allow_go cfg); [|discriminate]. injection Hc as <-. exact (check_ref_ok S locals file globals r a a1 Hl Hf Hg Ha E).
   - cbn [check_stmt] in Hc. exact (check_ref_ok S locals file globals r a a' Hl Hf Hg Ha Hc).
   - rewrite check_block in Hc.
     assert (Hl' : scope_ok S ((x, BLocal) :: locals)) by (constructor; [exact I|exact Hl]).
@@ -181,7 +182,7 @@ Proof.
   unfold check. destruct (check_imports cfg (g_imports g) [] []) as [[file0 asked]|] eqn:Hi; [|discriminate].
   destruct (check_imports_spec cfg (fun _ => True) _ _ _ _ _ (fun _ _ _ _ _ _ _ _ => I) (Forall_nil _) Hi) as (_ & Ha & Hall).
   destruct (check_stmts _ _ _ _ _ _) as [a|]; [|discriminate].
-  destruct (first_unused _ _); [discriminate|]. intros H; injection H as <-. cbn [o_asked]. auto.
+  destruct (if c_template cfg then None else first_unused _ _); [discriminate|]. intros H; injection H as <-. cbn [o_asked]. auto.
 Qed.
 
 Theorem natives_closed cfg g o : check cfg g = inl o -> Forall (supplied cfg g) (o_natives o).
@@ -195,10 +196,10 @@ Proof.
   { revert Hf0. generalize file0. induction (g_funcs g) as [|f r IH]; intros s Hs; cbn [fold_left]; [exact Hs|].
     apply IH. apply declare_ok; [exact Hs|exact I]. }
   assert (Hglob : scope_ok S (global_scope cfg)).
-  { unfold global_scope, scope_ok. apply Forall_forall. intros e He. apply in_map_iff in He.
+  { unfold global_scope, scope_ok. destruct (c_template cfg); [|constructor]. apply Forall_forall. intros e He. apply in_map_iff in He.
     destruct He as ([x id] & <- & Hin). cbn. left. apply in_map_iff. exists (x, id). auto. }
   destruct (check_stmts _ _ _ _ _ _) as [a|] eqn:Hc; [|discriminate].
-  destruct (first_unused _ _); [discriminate|]. intros H; injection H as <-. cbn [o_natives].
+  destruct (if c_template cfg then None else first_unused _ _); [discriminate|]. intros H; injection H as <-. cbn [o_natives].
   eapply (check_stmts_ok S); [exact Hfile|exact Hglob|constructor| |exact Hc]. constructor.
 Qed.
 
@@ -206,7 +207,7 @@ Lemma go_stmt_rejected cfg file globals : c_allow_go cfg = false ->
   forall s, stmt_has_go s = true -> forall locals a, exists e, check_stmt cfg locals file globals s a = inr e.
 Proof.
   intros Hno. induction s as [r|r|r|x b IH] using stmt_ind2; intros Hg locals a; cbn [stmt_has_go] in Hg; try discriminate.
-  - cbn [check_stmt]. rewrite Hno. eexists. reflexivity.
+  - cbn [check_stmt]. destruct (check_ref locals file globals r a); [rewrite Hno|]; eexists; reflexivity.
   - rewrite check_block. revert a. induction IH as [|s r Hs _ IHr]; intros a; cbn [existsb] in Hg; [discriminate|].
     cbn [check_stmts]. destruct (check_stmt cfg ((x, BLocal) :: locals) file globals s a) as [a1|e] eqn:E; [|eexists; reflexivity].
     apply orb_prop in Hg. destruct Hg as [Hg|Hg].
